@@ -123,7 +123,11 @@ PROPS = {
                       r'^date :: impl Date / fn (try_from_ymd|validate_ymd|is_valid)$', r'^time :: impl Time / fn (try_from_hms|validate_hms|is_valid)$',
                       r'^interval :: impl IntervalYM / fn (try_from_ym|is_valid_ym|is_valid_months)$',
                       r'^interval :: impl IntervalDT / fn (try_from_dhms|is_valid|is_valid_usecs)$',
-                      r'^oracle :: impl Date / fn (new|try_from_usecs|is_valid_date)$', r'^oracle :: impl From<Timestamp> for Date / fn from$'],
+                      r'^oracle :: impl Date / fn (new|try_from_usecs|is_valid_date)$', r'^oracle :: impl From<Timestamp> for Date / fn from$',
+                      # the text form is rendered from the field record of the value
+                      r' :: impl From<(Date|Time|Timestamp|IntervalYM|IntervalDT)> for NaiveDateTime / fn from$',
+                      r'^(date|time|interval|timestamp) :: impl (Date|Time|IntervalYM|IntervalDT|Timestamp) / fn extract$', r'^oracle :: impl Date / fn extract$',
+                      r'^common :: fn (julian2date|date2julian|is_leap_year|days_of_month)$'],
             'kinds': FUNCTIONAL + RANGE},
     'C16': {
         'verus': [r'^oracle :: ', r'^laws :: fn law_c16_', r'^spec :: proof fn lemma_(round_sec|floor_units|day_shift)$'],
